@@ -49,6 +49,27 @@ file, so the equivalence theorem no longer compiles and the check reports a brok
               key), externs whose law is for a literal argument (compared at translation time), `live_laws` (facts about the
               live module an extern rests on, checked at translation time), `for` loops that return with state
 
+  flow        (entries with `flow`: the container loader of iwork.py / containers.py, the un-framer of iwafile.py)
+              `try: B / except C1 [as e]: H1 / except (C2, C3): H2 / … [/ else: E]` as a match on the PyM outcome of B: the handlers
+              are tried in order, `isinstance` against the classes as written (`exc_classes` of the entry for classes with
+              subclasses such as Warning / OSError: a predicate of the externals record; `Exception`: every PyExc), an exception
+              no handler names propagates, a bare `raise` re-raises the matched exception, `raise Y(…) from e` raises Y; a body
+              every path of which returns is the value returned; a body that changes the handler state may only be caught by
+              handlers that raise, unless it is one assignment (whatever raises is evaluated before the variable is rebound);
+              `with E as v:`; expression statements (calls for their exception / their effect on the state: `state_externs`);
+              `self.m(args)` of another translated method of the group (`pyparams` positionally, wrapped by the caller's
+              `arg_wrap`; the other parameters are the caller's variables of the same name; the callee's `state` rebinds them),
+              properties (`property`), a method that calls itself (`rec_fuel`: the recursion depth is the parameter `fuel`,
+              RecursionError at 0, loops take the method one level deeper as the parameter `rec_`); `opt_attrs` (attributes that
+              are unset at first: an Option, AttributeError while unset), `init` (what a fresh object has), `exprs` (an expression
+              the entry names as a whole), `transparent_attrs`, externs whose Lean name carries the index of the call site
+              (`{i}`), comprehension filters, `s.endswith((a, b))`, `math.ceil(a / n)`
+  bytes       bytes constants, `bytes(b)`, `a + b`, truth value, `b"".join(xs)`, `unpack("<I", b)[0]` / `struct.pack("<I", n)`
+              (PyT.unpackU32LE / packU32LE), `unpack(fmt, b)[0]` for the formats the entry names (`unpack`); `generator`: a
+              generator consumed as a whole is the list of what it yields; `opt_vars` (`x = None` then `x = value`: an Option),
+              `class_defaults` (the attributes of a local object kept as Optional variables: compared with the live class),
+              `find` (the function under another name after a harmless renaming)
+
 Every construct is translated to the operation of Py/Trans.lean / Py/Basic.lean that states its Python
 meaning; everything that can raise lives in `PyM = Except PyExc`.
 """
@@ -122,6 +143,8 @@ KEYWORDS = {"match", "at", "from", "open", "end", "in", "fun", "do", "then", "el
 
 
 def lname(n: str) -> str:
+    if n == "_":
+        return "u_"
     return n + "_" if n in KEYWORDS else n
 
 
@@ -141,7 +164,9 @@ def text_lit(s: str) -> str:
 
 
 EXC = {"IndexError": ".IndexError", "KeyError": ".KeyError", "ValueError": ".ValueError", "TypeError": ".TypeError",
-       "RuntimeError": ".RuntimeError", "AttributeError": ".AttributeError", "TokenizerError": ".TokenizerError"}
+       "RuntimeError": ".RuntimeError", "AttributeError": ".AttributeError", "TokenizerError": ".TokenizerError",
+       "FileError": ".FileError", "FileFormatError": ".FileFormatError", "UnsupportedError": ".UnsupportedError",
+       "BadZipFile": ".BadZipFile"}
 
 
 # the class constants of `tokenizer.Token` (entries with `token_class`): a `Token` is the structure Tokenizer.Tok of
@@ -174,6 +199,8 @@ def exc_code(node) -> str:
         name = node.func.id
     elif isinstance(node, ast.Name):
         name = node.id
+    elif isinstance(node, ast.Attribute):      # plistlib.InvalidFileException: the class name
+        name = node.attr
     if name is None:
         raise Unsupported("raise of a computed exception")
     return EXC.get(name, f'(.Other "{name}")')
@@ -224,6 +251,14 @@ class Fn:
         """returns (lean code, type); monadic sub-computations are hoisted into `pre` as `let x ← …`."""
         if isinstance(e, ast.Subscript) and ast.unparse(e) in self.spec.get("attrs", {}):
             return self.spec["attrs"][ast.unparse(e)]
+        if self.spec.get("exprs") and not isinstance(e, (ast.Constant, ast.Name)) and ast.unparse(e) in self.spec["exprs"]:
+            # an expression the entry names as a whole (a third-party computation): the Lean term given there
+            code, t, monadic = self.spec["exprs"][ast.unparse(e)]
+            if monadic:
+                v = self.fresh()
+                pre.append(f"let {v} ← {code}")
+                return v, t
+            return code, t
         if isinstance(e, ast.Constant):
             v = e.value
             if isinstance(v, bool):
@@ -234,6 +269,8 @@ class Fn:
                 return text_lit(v), "str"
             if v is None:
                 return "()", "none"
+            if isinstance(v, bytes):
+                return "([" + ", ".join(str(b) for b in v) + "] : Bytes)", "bytes"
             raise Unsupported(f"constant {v!r}")
         if isinstance(e, ast.Name):
             if e.id in env:
@@ -253,6 +290,17 @@ class Fn:
             mc = self.module_const(e)
             if mc is not None:
                 return mc
+            if src in self.spec.get("opt_attrs", {}):
+                # an attribute of self that __init__ does not set: AttributeError while it is unset
+                name, t = self.spec["opt_attrs"][src]
+                v = self.fresh()
+                pre.append(f"let {v} ← PyT.attrGet {lname(name)}")
+                return v, t
+            if e.attr in self.spec.get("transparent_attrs", ()):
+                return self.expr(e.value, env, pre)      # the object stands for this attribute of it
+            if self.spec.get("flow") and isinstance(e.value, ast.Name) and e.value.id == "self" and e.attr in self.registry \
+                    and self.registry[e.attr].get("property"):
+                return self.flow_call(self.registry[e.attr], [], env, pre)
             if self.spec.get("token_class") and isinstance(e.value, ast.Name) and e.attr in TOKEN_CONSTS \
                     and (e.value.id in ("Token", "cls") or (e.value.id == "self" and env.get("self") == "tok")):
                 return TOKEN_CONSTS[e.attr]      # Token.OP_IN, cls.CLOSE, self.FUNC: the enum member of that name
@@ -396,6 +444,22 @@ class Fn:
             v = self.fresh()
             pre.append(f"let {v} ← PyT.digitsOfBase {c} {dict(bin=2, oct=8, hex=16)[e.value.func.id]}")
             return v, "str"
+        if isinstance(e, ast.ListComp) and len(e.generators) == 1 and e.generators[0].ifs and self.spec.get("flow") \
+                and isinstance(e.generators[0].target, ast.Name):
+            # [f(x) for x in xs if c(x)]: filter, then map (c and f may not raise)
+            g = e.generators[0]
+            it, itt = self.expr(g.iter, env, pre)
+            if not (isinstance(itt, tuple) and itt[0] == "list"):
+                raise Unsupported("filtered comprehension over " + str(itt))
+            env2 = dict(env)
+            env2[g.target.id] = itt[1]
+            sub: list[str] = []
+            conds = [self.truthy(c, env2, sub) for c in g.ifs]
+            body, bt2 = self.expr(e.elt, env2, sub)
+            if sub:
+                raise Unsupported("filtered comprehension with an element or condition that can raise")
+            var = f"({lname(g.target.id)} : {lean_type(itt[1])})"
+            return (f"((({it}).filter (fun {var} => {' && '.join(conds)})).map (fun {var} => {body}))"), ("list", bt2)
         if isinstance(e, ast.ListComp) and len(e.generators) == 1 and not e.generators[0].ifs \
                 and isinstance(e.generators[0].target, ast.Name):
             g = e.generators[0]
@@ -425,6 +489,28 @@ class Fn:
                 pre.append(f"  : PyM {lean_type(bt2)}))")
                 return v, ("list", bt2)
             return f"(({lst}).map (fun ({lname(g.target.id)} : {lean_type(et)}) => {body}))", ("list", bt2)
+        if isinstance(e, ast.Subscript) and isinstance(e.value, ast.Call) and ast.unparse(e.value.func) in ("unpack", "struct.unpack") \
+                and len(e.value.args) == 2 and isinstance(e.value.args[0], ast.Constant) and e.value.args[0].value == "<I" \
+                and isinstance(e.slice, ast.Constant) and e.slice.value == 0:
+            # unpack("<I", b)[0]: the little-endian value of exactly four bytes (struct.error otherwise)
+            c, t = self.expr(e.value.args[1], env, pre)
+            if t != "bytes":
+                raise Unsupported("unpack('<I', x) of " + str(t))
+            v = self.fresh()
+            pre.append(f"let {v} ← PyT.unpackU32LE {c}")
+            return v, "int"
+        if isinstance(e, ast.Subscript) and isinstance(e.value, ast.Call) and ast.unparse(e.value.func) in ("unpack", "struct.unpack") \
+                and len(e.value.args) == 2 and isinstance(e.value.args[0], ast.Constant) \
+                and e.value.args[0].value in self.spec.get("unpack", {}) \
+                and isinstance(e.slice, ast.Constant) and e.slice.value == 0:
+            # unpack(fmt, b)[0] for a format the entry names: the Lean reader given there (struct.error on a wrong length)
+            lean_fn, rett = self.spec["unpack"][e.value.args[0].value]
+            c, t = self.expr(e.value.args[1], env, pre)
+            if t != "bytes":
+                raise Unsupported("unpack(fmt, x) of " + str(t))
+            v = self.fresh()
+            pre.append(f"let {v} ← {lean_fn} {c}")
+            return v, rett
         if isinstance(e, ast.Subscript) and ast.unparse(e.value) in self.spec.get("tables", {}):
             # a class-level table of third-party objects (compiled regexes) looked up by key: the named Lean function
             lean_fn, kt, rett = self.spec["tables"][ast.unparse(e.value)]
@@ -526,7 +612,7 @@ class Fn:
         """Python truth value of an expression used as a test → Lean Bool."""
         if isinstance(e, ast.UnaryOp) and isinstance(e.op, ast.Not):
             return f"(!{self.truthy(e.operand, env, pre)})"
-        if isinstance(e, ast.BoolOp) and self.spec.get("token_class"):
+        if isinstance(e, ast.BoolOp) and (self.spec.get("token_class") or self.spec.get("flow")):
             # truth value of `a and b and …` / `a or b or …` used as a test: the operands' truth values, left to right; an
             # operand that can raise is evaluated only when the ones before it did not decide the outcome
             parts = []
@@ -560,7 +646,7 @@ class Fn:
             return f"(decide ({c} ≠ 0))"
         if t == "millis":
             return f"(decide ({c}.ms ≠ 0))"
-        if t == "str" or (isinstance(t, tuple) and t[0] == "list"):
+        if t in ("str", "bytes") or (isinstance(t, tuple) and t[0] == "list"):
             return f"(!({c}).isEmpty)"
         if isinstance(t, tuple) and t[0] == "opt":
             return f"({c}).isSome"
@@ -577,6 +663,8 @@ class Fn:
             return f"({a} ++ {b})", "str"
         if isinstance(at, tuple) and at[0] == "list" and at == bt and op is ast.Add:
             return f"({a} ++ {b})", at
+        if at == "bytes" and bt == "bytes" and op is ast.Add:
+            return f"({a} ++ {b})", "bytes"
         if at == "millis" and bt == "int" and op is ast.Mod:
             v = self.fresh()
             pre.append(f"let {v} ← PyT.Millis.mod {a} {b}")
@@ -612,6 +700,9 @@ class Fn:
             actual = [a.value if isinstance(a, ast.Starred) else a for a in e.args] + \
                 [k.value for k in e.keywords if k.arg is not None]
             args = [self.expr(a, env, pre)[0] for i, a in enumerate(actual) if not keep or keep[0] is None or i in keep[0]]
+            if "{i}" in lean_fn:
+                # the k-th call site of this extern in source order (filepath.is_dir(), first and second call)
+                lean_fn = lean_fn.replace("{i}", str(self.occurrence[id(e)]))
             code = f"({lean_fn} " + " ".join(args) + ")" if args else lean_fn
             if monadic:
                 v = self.fresh()
@@ -622,6 +713,47 @@ class Fn:
             r = self.token_call(e, env, pre)
             if r is not None:
                 return r
+        if self.spec.get("flow"):
+            callee = self.flow_callee(f)
+            if callee is not None:
+                if e.keywords:
+                    raise Unsupported("keyword arguments in a method call")
+                return self.flow_call(callee, e.args, env, pre)
+            if isinstance(f, ast.Attribute) and f.attr in ("startswith", "endswith") and len(e.args) == 1 and not e.keywords:
+                base, bt = self.expr(f.value, env, pre)
+                alts = e.args[0].elts if isinstance(e.args[0], ast.Tuple) else [e.args[0]]
+                parts = [self.expr(a, env, pre) for a in alts]
+                if bt != "str" or any(p[1] != "str" for p in parts) or not parts:
+                    raise Unsupported(f"{f.attr} on {bt}")
+                return "(" + " || ".join(f"(PyT.{f.attr} {base} {p[0]})" for p in parts) + ")", "bool"
+            if src == "math.ceil" and len(e.args) == 1 and isinstance(e.args[0], ast.BinOp) and isinstance(e.args[0].op, ast.Div) \
+                    and isinstance(e.args[0].right, ast.Constant) and isinstance(e.args[0].right.value, int):
+                # math.ceil(a / n) on an int a and an int literal n: the ceiling of the true quotient (PyT.ceilDivFloat)
+                a, at = self.expr(e.args[0].left, env, pre)
+                if at != "int":
+                    raise Unsupported("math.ceil(a / n) on " + str(at))
+                v = self.fresh()
+                pre.append(f"let {v} ← PyT.ceilDivFloat {a} ({e.args[0].right.value} : Int)")
+                return v, "int"
+        if isinstance(f, ast.Attribute) and f.attr == "join" and isinstance(f.value, ast.Constant) and f.value.value == b"" \
+                and len(e.args) == 1:
+            c, t = self.expr(e.args[0], env, pre)
+            if t != ("list", "bytes"):
+                raise Unsupported("b''.join over " + str(t))
+            return f"(List.flatten {c})", "bytes"
+        if src == "struct.pack" and len(e.args) == 2 and isinstance(e.args[0], ast.Constant) and e.args[0].value == "<I":
+            # struct.pack("<I", n): four little-endian bytes; struct.error outside 0 .. 2^32 - 1
+            c, t = self.expr(e.args[1], env, pre)
+            if t != "int":
+                raise Unsupported("struct.pack('<I', x) of " + str(t))
+            v = self.fresh()
+            pre.append(f"let {v} ← PyT.packU32LE {c}")
+            return v, "bytes"
+        if src == "bytes" and len(e.args) == 1 and not e.keywords:
+            c, t = self.expr(e.args[0], env, pre)
+            if t != "bytes":
+                raise Unsupported("bytes() of " + str(t))
+            return c, "bytes"      # bytes(b) of a bytes / bytearray slice: the same bytes
         if isinstance(f, ast.Attribute) and f.attr == "join" and isinstance(f.value, ast.Constant) and len(e.args) == 1:
             c, t = self.expr(e.args[0], env, pre)
             if t != ("list", "str"):
@@ -783,6 +915,8 @@ class Fn:
     def effects(self, node) -> list[str]:
         """caller variables rebound by evaluating the expression / statement (calls of state methods, dispatch calls, pop)"""
         out: list[str] = []
+        if self.spec.get("flow"):
+            return self.flow_effects(node)
         if not self.spec.get("token_class"):
             return out
         for n in ast.walk(node):
@@ -913,6 +1047,196 @@ class Fn:
                     return self.plain_call(self.registry[f.attr], e, env, pre, first=[base])
         return None
 
+    # -- exception flow of the loader (entries with `flow`) ---------------------------------------------
+    def flow_callee(self, f):
+        """`self.m` / `<alias of a translated object>.m` where m is another translated method of the group"""
+        if isinstance(f, ast.Attribute) and f.attr in self.registry and not self.registry[f.attr].get("property") \
+                and ast.unparse(f.value) in ("self",) + tuple(self.spec.get("self_aliases", ())) \
+                and ast.unparse(f) not in self.spec.get("externs", {}):
+            return self.registry[f.attr]
+        return None
+
+    def flow_call(self, callee, args_nodes, env, pre):
+        """call of another translated method: the Python arguments positionally (`pyparams` of the callee, wrapped by the
+        caller's `arg_wrap` for that callee), every other parameter of the callee is the caller's variable of the same name
+        (the externals record, the handler state, attributes of self), `fuel` of a recursive callee is its `rec_fuel`
+        (the predecessor inside the callee itself); the callee's `state` rebinds the caller's variables of the same names"""
+        key = callee["qualname"].split(".")[-1]
+        pyp = callee.get("pyparams", [])
+        if len(args_nodes) != len(pyp):
+            raise Unsupported(f"arguments of {callee['lean']}")
+        wrap = self.spec.get("arg_wrap", {}).get(key)
+        given = {}
+        for n, a in zip(pyp, args_nodes):
+            code = self.expr(a, env, pre)[0]
+            given[n] = f"({wrap} {code})" if wrap else code
+        me = callee is self.spec
+        args = []
+        for n, t, *_ in callee["params"]:
+            if n in given:
+                args.append(given[n])
+            elif n == "fuel" and callee.get("rec_fuel"):
+                args.append("fuel" if me else f"({callee['rec_fuel']})")
+            elif n in env:
+                args.append(lname(n))
+            else:
+                raise Unsupported(f"{n} is not bound at the call of {callee['lean']}")
+        state = list(callee.get("state", ()))
+        for x in state:
+            if x not in env:
+                raise Unsupported(f"{x} is not bound at the call of {callee['lean']}")
+        if me:
+            # the function itself, one level deeper: `rec_` is `<fn> ext fuel` (loops take it as a parameter)
+            head = "rec_ " + " ".join(a for (n, *_), a in zip(callee["params"], args) if n not in ("ext", "fuel"))
+        else:
+            head = f"{callee['lean']} " + " ".join(args)
+        v = self.fresh()
+        pat = "(" + ", ".join([v] + [lname(x) for x in state]) + ")" if state else v
+        pre.append(f"let {pat} ← {head}")
+        return v, callee["ret"]
+
+    def flow_effects(self, node) -> list[str]:
+        out: list[str] = []
+        for n in ast.walk(node):
+            names: list[str] = []
+            if isinstance(n, ast.Call):
+                callee = self.flow_callee(n.func)
+                if callee is not None:
+                    names = list(callee.get("state", ()))
+                elif ast.unparse(n.func) in self.spec.get("state_externs", {}):
+                    names = [self.spec["state_externs"][ast.unparse(n.func)][1]]
+            elif isinstance(n, ast.Assign) and len(n.targets) == 1 and ast.unparse(n.targets[0]) in self.spec.get("opt_attrs", {}):
+                names = [self.spec["opt_attrs"][ast.unparse(n.targets[0])][0]]
+            for x in names:
+                if x not in out:
+                    out.append(x)
+        return out
+
+    def exc_test(self, cls, var) -> str:
+        """`isinstance(e, cls)` for the class (or tuple of classes) an `except` clause names"""
+        if isinstance(cls, ast.Tuple):
+            return "(" + " || ".join(self.exc_test(c, var) for c in cls.elts) + ")"
+        name = cls.id if isinstance(cls, ast.Name) else cls.attr if isinstance(cls, ast.Attribute) else None
+        if name is None:
+            raise Unsupported("except clause with a computed class")
+        if name in self.spec.get("exc_classes", {}):
+            return f"({self.spec['exc_classes'][name]} {var})"      # a class with subclasses: the externals record decides
+        if name == "Exception":
+            return "true"      # every PyExc stands for a subclass of Exception (KeyboardInterrupt / SystemExit are not modelled)
+        code = EXC.get(name, '(.Other "' + name + '")')
+        return f"(decide ({var} = {code}))"
+
+    @staticmethod
+    def top_level_ctl(stmts, kinds) -> bool:
+        """a statement of one of the kinds that is not inside a nested loop"""
+        def walk(n):
+            if isinstance(n, kinds):
+                return True
+            if isinstance(n, (ast.For, ast.While)):      # break / continue in there belong to that loop; a return does not
+                return any(isinstance(m, ast.Return) for m in ast.walk(n)) if ast.Return in kinds else False
+            return any(walk(c) for c in ast.iter_child_nodes(n))
+        return any(walk(s) for s in stmts)
+
+    def flow_try(self, s, env, cont, loop):
+        """try / except C1 [as e] / except (C2, C3) / … [/ else]: a match on the PyM outcome of the body; the handlers are tried
+        in order (`isinstance` against the classes as written), an exception no handler names propagates; a bare `raise`
+        re-raises the matched exception, `raise Y(…) from e` raises Y.  A body that changes the handler state may only be
+        caught by handlers that raise (the state a failed call leaves behind is not modelled)."""
+        if s.finalbody:
+            raise Unsupported("try / finally")
+        self.ntry = getattr(self, "ntry", 0) + 1
+        evar = f"e{self.ntry}_"
+
+        def handler_chain(tail_of):
+            lines: list[str] = []
+            depth = 0
+            for h in s.handlers:
+                if h.type is None:
+                    raise Unsupported("bare except")
+                self.exc_stack.append(evar)
+                hl = self.block(h.body, env, tail_of(h), loop)
+                self.exc_stack.pop()
+                lines += ["  " * depth + f"if {self.exc_test(h.type, evar)} then (do"] + \
+                    ["  " * depth + l for l in self.ind(self.ind(hl))] + ["  " * depth + "  ) else"]
+                depth += 1
+            lines.append("  " * depth + f"throw {evar}")
+            return lines
+
+        if self.terminal(s.body):
+            # every path through the body returns or raises: the body is the value returned
+            if loop is not None or s.orelse or not all(self.terminal(h.body) for h in s.handlers):
+                raise Unsupported("try whose body returns, inside a loop / with else / with a handler that falls through")
+            body_lines = self.block(s.body, env, None, None)
+            state = self.spec.get("state", ())
+            rty = lean_type(("tuple", [self.ret] + [env[v] for v in state])) if state else lean_type(self.ret)
+            return [f"match ((do"] + self.ind(self.ind(body_lines)) + [f"    ) : PyM {rty}) with", "| .ok r_ => pure r_",
+                                                                     f"| .error {evar} =>"] + \
+                self.ind(handler_chain(lambda h: None))
+        if self.top_level_ctl(s.body, (ast.Return, ast.Break, ast.Continue)):
+            raise Unsupported("try body with return / break / continue that falls through elsewhere")
+        changes_state = [v for v in self.assigned(s.body) if v in self.spec.get("state", ()) or v in env]
+        atomic = len(s.body) == 1 and isinstance(s.body[0], ast.Assign) and not self.flow_effects(s.body[0])
+        # (one assignment: whatever raises is evaluated before the variable is rebound, so the handler sees the old value)
+        if changes_state and not atomic and not all(self.terminal(h.body) for h in s.handlers):
+            raise Unsupported("try body that rebinds " + ", ".join(changes_state) + " with a handler that falls through")
+        benv: dict = {}
+        bvars: list[str] = []
+
+        def btail(e2):
+            benv.update(e2)
+            bvars[:] = [v for v in self.assigned(s.body) if v in e2]
+            return ["pure (" + ", ".join(lname(v) for v in bvars) + ")"] if len(bvars) != 1 else [f"pure {lname(bvars[0])}"]
+        body_lines = self.block(s.body, env, btail, None)
+        bpat = "(" + ", ".join(lname(v) for v in bvars) + ")" if len(bvars) != 1 else lname(bvars[0])
+        bty = lean_type(("tuple", [benv[v] for v in bvars])) if len(bvars) != 1 else lean_type(benv[bvars[0]])
+        if not bvars:
+            bpat, bty = "()", "Unit"
+        env_else = dict(env)
+        for v in bvars:
+            env_else[v] = benv[v]
+        # the paths that fall through (body + else, every handler that does not end in raise): their tails are filled in
+        # once the variables bound on all of them are known
+        ends: list[tuple[str, dict]] = []
+
+        def make_tail():
+            def tail(e2):
+                mark = f"@@TAIL{self.ntry}.{len(ends)}@@"
+                ends.append((mark, e2))
+                return [mark]
+            return tail
+        else_lines = self.block(s.orelse, env_else, make_tail(), loop)
+        chain = handler_chain(lambda h: (None if self.terminal(h.body) else make_tail()))
+        cands = [v for v in self.assigned(s.body + s.orelse + [x for h in s.handlers for x in h.body])]
+        mods = [v for v in cands if all(v in e2 for _, e2 in ends)]
+        types = {}
+        for m in mods:
+            ts = [e2[m] for _, e2 in ends]
+            opt = [t for t in ts if isinstance(t, tuple) and t[0] == "opt"]
+            final = opt[0] if opt else ts[0]
+            if any(t != final and ("opt", t) != final for t in ts):
+                raise Unsupported(f"{m} has different types on the paths through the try statement")
+            types[m] = final
+
+        def fill(lines):
+            out = []
+            for l in lines:
+                for mark, e2 in ends:
+                    if mark in l:
+                        vals = [lname(m) if e2[m] == types[m] else f"(some {lname(m)})" for m in mods]
+                        l = l.replace(mark, "pure (" + ", ".join(vals) + ")" if len(vals) != 1 else f"pure {vals[0]}")
+                out.append(l)
+            return out
+        env2 = dict(env)
+        for m in mods:
+            env2[m] = types[m]
+        pat = "(" + ", ".join(lname(m) for m in mods) + ")" if len(mods) != 1 else lname(mods[0])
+        ty = lean_type(("tuple", [types[m] for m in mods])) if len(mods) != 1 else lean_type(types[mods[0]])
+        if not mods:
+            pat, ty = "()", "Unit"
+        return [f"let {pat} : {ty} ← (match ((do"] + self.ind(self.ind(body_lines)) + [f"    ) : PyM {bty}) with",
+               f"  | .ok {bpat} => (do"] + fill(self.ind(self.ind(else_lines))) + ["    )", f"  | .error {evar} =>"] + \
+            fill(self.ind(self.ind(chain))) + ["  )"] + cont(env2)
+
     # -- statements -----------------------------------------------------------------------
     @staticmethod
     def terminal(stmts) -> bool:
@@ -941,6 +1265,10 @@ class Fn:
                 tgt(t.value)      # buf[i] = x updates buf
             elif isinstance(t, ast.Subscript) and ast.unparse(t.value) in attrs:
                 name = attrs[ast.unparse(t.value)][0]      # d[k] = v on a dict carried as a state variable updates it
+                if name not in out:
+                    out.append(name)
+            elif isinstance(t, ast.Attribute) and ast.unparse(t) in self.spec.get("opt_attrs", {}):
+                name = self.spec["opt_attrs"][ast.unparse(t)][0]      # obj.X = v for an attribute kept as an Optional variable
                 if name not in out:
                     out.append(name)
         for s in stmts:
@@ -990,13 +1318,66 @@ class Fn:
         if isinstance(s, ast.Assign) and len(s.targets) == 1 and isinstance(s.targets[0], ast.Name) \
                 and s.targets[0].id in getattr(self, "msg_only", ()):
             return cont(env)  # exception message text: not modelled
+        if self.spec.get("flow") and isinstance(s, ast.Expr) and isinstance(s.value, ast.Call) \
+                and ast.unparse(s.value.func) == "debug":
+            return cont(env)  # logging: not modelled
+        if isinstance(s, ast.Assign) and len(s.targets) == 1 and ast.unparse(s.targets[0]) in self.spec.get("opt_attrs", {}):
+            # self.X = v for an attribute __init__ does not set: from here on it is set
+            name, t = self.spec["opt_attrs"][ast.unparse(s.targets[0])]
+            pre = []
+            code, vt = self.expr(s.value, env, pre)
+            if vt != t:
+                raise Unsupported(f"self attribute of type {t} assigned a {vt}")
+            env2 = dict(env)
+            env2[name] = ("opt", t)
+            return pre + [f"let {lname(name)} : {lean_type(('opt', t))} := some {code}"] + cont(env2)
+        if isinstance(s, ast.With) and self.spec.get("flow"):
+            # with E as v: body — E is evaluated, v bound, the body runs (a file object's __exit__ swallows nothing)
+            pre = []
+            env2 = dict(env)
+            for item in s.items:
+                code, t = self.expr(item.context_expr, env2, pre)
+                if item.optional_vars is not None:
+                    if not isinstance(item.optional_vars, ast.Name):
+                        raise Unsupported("with target")
+                    env2[item.optional_vars.id] = t
+                    pre.append(f"let {lname(item.optional_vars.id)} : {lean_type(t)} := {code}")
+            return pre + self.block(list(s.body), env2, cont, loop)
+        if isinstance(s, ast.Expr) and isinstance(s.value, ast.Call) and self.spec.get("flow"):
+            pre = []
+            fsrc = ast.unparse(s.value.func)
+            if fsrc in self.spec.get("state_externs", {}):
+                # a call of the handler: every argument is evaluated (it may raise), the state variable is rebound
+                lean_fn, var, keep = self.spec["state_externs"][fsrc]
+                if s.value.keywords:
+                    raise Unsupported("keyword arguments in a handler call")
+                args = [self.expr(a, env, pre)[0] for a in s.value.args]
+                if var not in env:
+                    raise Unsupported(f"{var} is not bound at the call of {fsrc}")
+                return pre + [f"let {lname(var)} : {lean_type(env[var])} := {lean_fn} {lname(var)} " +
+                              " ".join(args[i] for i in keep)] + cont(env)
+            self.expr(s.value, env, pre)
+            return pre + cont(env)
+        if isinstance(s, ast.Try) and self.spec.get("flow"):
+            return self.flow_try(s, env, cont, loop)
+        if isinstance(s, ast.Raise) and s.exc is None and getattr(self, "exc_stack", None):
+            return [f"throw {self.exc_stack[-1]}"]
         if isinstance(s, (ast.Assign, ast.AugAssign)):
             pre: list[str] = []
             if isinstance(s, ast.Assign):
                 if len(s.targets) != 1:
                     raise Unsupported("chained assignment")
                 target = s.targets[0]
-                if isinstance(s.value, ast.List) and not s.value.elts and isinstance(target, ast.Name) \
+                if isinstance(s.value, ast.Constant) and s.value.value is None and isinstance(target, ast.Name) \
+                        and target.id in self.spec.get("opt_vars", {}):
+                    t = ("opt", self.spec["opt_vars"][target.id])       # `x = None` for a variable that later holds a value
+                    code = f"(none : {lean_type(t)})"
+                elif isinstance(target, ast.Name) and target.id in self.spec.get("opt_vars", {}):
+                    code, t = self.expr(s.value, env, pre)
+                    if t != self.spec["opt_vars"][target.id]:
+                        raise Unsupported(f"{target.id} declared Optional[{self.spec['opt_vars'][target.id]}] is assigned a {t}")
+                    code, t = f"(some {code})", ("opt", t)
+                elif isinstance(s.value, ast.List) and not s.value.elts and isinstance(target, ast.Name) \
                         and isinstance(env.get(target.id), tuple) and env[target.id][0] == "list":
                     t = env[target.id]       # `x = []` for a list variable that already has an element type
                     code = f"([] : {lean_type(t)})"
@@ -1142,7 +1523,7 @@ class Fn:
         if not self.has(s.body + s.orelse, ctl + (ast.While, ast.For)):
             # both branches fall through and only assign: join on the assigned variables
             mods = [m for m in self.assigned(s.body + s.orelse)]
-            if self.spec.get("token_class"):
+            if self.spec.get("token_class") or self.spec.get("flow"):
                 # a name bound in one branch only (and not before) is out of scope after the statement: it is not joined, a
                 # later use is a free name
                 mods = self.defined_on_all_paths(mods, [s.body, s.orelse], [env, env], loop)
@@ -1178,6 +1559,7 @@ class Fn:
     def defined_on_all_paths(self, mods, blocks, envs0, loop):
         """those of `mods` that are bound at the end of every one of the blocks (a dry run of each block; counters restored)"""
         saved = (self.tmp, list(self.aux), self.nloop, getattr(self, "nloop_for", 0), getattr(self, "ndispatch", 0))
+        saved_try = getattr(self, "ntry", 0)
         ends = []
 
         def probe(e2):
@@ -1186,6 +1568,7 @@ class Fn:
         for b, e0 in zip(blocks, envs0):
             self.block(b, e0, probe, loop)
         self.tmp, self.aux, self.nloop, self.nloop_for, self.ndispatch = saved
+        self.ntry = saved_try
         return [m for m in mods if all(m in e2 for e2 in ends)]
 
     def try_stmt(self, s, env, cont, loop):
@@ -1381,6 +1764,11 @@ class Fn:
         cand -= params
         # parameters and state variables of the entry are results, never message texts
         cand -= {p[0] for p in self.spec["params"]} | set(self.spec.get("state", ()))
+        if self.spec.get("flow"):
+            # a name that is never read (`_ = zipf.getinfo(…)`) is not a message text: its value is computed for the exception
+            # it may raise
+            loaded = {n.id for n in ast.walk(fdef) if isinstance(n, ast.Name) and isinstance(n.ctx, ast.Load)}
+            cand = {c for c in cand if c in loaded}
         changed = True
         while changed:
             changed = False
@@ -1480,6 +1868,15 @@ class Fn:
         return fdef
 
     def translate(self, fdef: ast.FunctionDef) -> str:
+        if self.spec.get("class_defaults"):
+            # a class whose attributes the entry keeps as variables: their defaults are read from the live class
+            import importlib
+            cls_name, names = self.spec["class_defaults"]
+            klass = getattr(importlib.import_module(self.spec["module"]), cls_name)
+            live = [f.name for f in __import__("dataclasses").fields(klass)] if hasattr(klass, "__dataclass_fields__") else \
+                [k for k in vars(klass) if k.startswith("_") and k.endswith("_id")]
+            if live != names or any(getattr(klass(), n) is not None for n in names):
+                raise Unsupported(f"{cls_name}() no longer has exactly the attributes {names}, all None")
         if self.spec.get("token_class"):
             token_law(self.spec["module"])
             for what, law in self.spec.get("live_laws", ()):
@@ -1487,6 +1884,21 @@ class Fn:
                 if not law(importlib.import_module(self.spec["module"])):
                     raise Unsupported("the law an extern of this entry rests on no longer holds: " + what)
             fdef = self.find_dispatch(fdef)
+        if self.spec.get("generator"):
+            # a generator consumed as a whole (b"".join(gen(…))): `yield v` appends v to the list of what was yielded, which is
+            # the result (an exception ends it, as it ends the consumer)
+            class Y(ast.NodeTransformer):
+                def visit_Expr(self, node):
+                    if isinstance(node.value, ast.Yield) and node.value.value is not None:
+                        return ast.Assign(targets=[ast.Name(id="yielded_", ctx=ast.Store())],
+                                          value=ast.BinOp(left=ast.Name(id="yielded_", ctx=ast.Load()), op=ast.Add(),
+                                                          right=ast.List(elts=[node.value.value], ctx=ast.Load())))
+                    return self.generic_visit(node)
+            fdef = Y().visit(fdef)
+            if any(isinstance(n, (ast.Yield, ast.YieldFrom, ast.Return)) for n in ast.walk(fdef)):
+                raise Unsupported("generator with yield as an expression / yield from / return")
+            fdef.body = list(fdef.body) + [ast.Return(value=ast.Name(id="yielded_", ctx=ast.Load()))]
+            ast.fix_missing_locations(fdef)
         fdef = self.desugar_state(fdef)
         if self.spec.get("token_class") and self.spec.get("state_attrs"):
             # whatever the method changes in `self` must be among the state variables it returns
@@ -1525,7 +1937,31 @@ class Fn:
         for n, t, *_ in self.spec["params"]:
             env[n] = t
             params.append(f"({lname(n)} : {lean_type(t)})")
-        body = self.block(fdef.body, env, None)
+        self.exc_stack: list[str] = []
+        # call sites of each extern in source order (externs whose Lean name carries the index of the call site)
+        self.occurrence = {}
+        counts: dict[str, int] = {}
+        calls = [n for n in ast.walk(fdef) if isinstance(n, ast.Call)]
+        for n in sorted(calls, key=lambda n: (n.lineno, n.col_offset)):
+            k = ast.unparse(n.func)
+            self.occurrence[id(n)] = counts.get(k, 0)
+            counts[k] = counts.get(k, 0) + 1
+        head_lines: list[str] = []
+        for n, t, init in self.spec.get("init", ()):
+            # what a fresh object has before the method runs (an unset attribute, an empty handler state)
+            env[n] = t
+            head_lines.append(f"let {lname(n)} : {lean_type(t)} := {init}")
+        if self.spec.get("rec_fuel"):
+            # a method that calls itself: the depth of the recursion is the parameter `fuel` (RecursionError at 0); `rec_` is
+            # the method one level deeper
+            rest = [(n, t) for n, t, *_ in self.spec["params"] if n not in ("ext", "fuel")]
+            state = self.spec.get("state", ())
+            rty0 = lean_type(("tuple", [self.ret] + [env[v] for v in state])) if state else lean_type(self.ret)
+            env["rec_"] = ("raw", " → ".join([lean_type(t) for _, t in rest] + [f"PyM {rty0}"]))
+        body = head_lines + self.block(fdef.body, env, None)
+        if self.spec.get("rec_fuel"):
+            body = ["match fuel with", "| 0 => throw (.Other \"RecursionError\")", "| fuel + 1 => do",
+                    f"  let rec_ := {self.name} ext fuel"] + self.ind(body)
         state = self.spec.get("state", ())
         rty = lean_type(("tuple", [self.ret] + [env[v] for v in state])) if state else lean_type(self.ret)
         tv = "".join("{" + v + " : Type} " for v in self.spec.get("typevars", ()))
@@ -1536,6 +1972,23 @@ class Fn:
 # ---------------------------------------------------------------------------------------------
 # what is translated
 # ---------------------------------------------------------------------------------------------
+# the fourteen ids of CellStorageFlags, in class order (compared with the live class when the entry is translated)
+CELL_ID_FIELDS = ["string", "rich", "cell_style", "text_style", "formula", "control", "formula_error", "suggest", "num_format",
+                  "currency_format", "date_format", "duration_format", "text_format", "bool_format"]
+
+# ---- C17: types of the loader entries (group `Load`) ----------------------------------------------------------------
+L_EXT = ("ext", ("raw", "Loader.Ext"))                 # the externals record the hand model quantifies over
+L_ST = ("st", ("var", "Loader.Store"))                 # the handler state (ObjectStore._objects / _file_store)
+L_NAT = ("var", "Nat")                                 # an opaque id (opened zip, blob) / an object identifier
+L_ZIPSRC = ("raw", "PyM Nat")                          # what ZipFile(<this>) does
+L_STEP = ("raw", "PyM Loader.PkgEntry")                # one step of the flattened package walk
+L_FUEL = ("fuel", ("raw", "Nat"))
+L_DECODED = ("list", ("list", ("var", "(Nat × Nat)")))  # IWAFile: chunks -> archives -> (identifier, len(objects))
+L_OPT_ATTRS = {"self._is_package": ("is_package", "bool"), "self._zipf": ("zipf", L_NAT)}
+L_ASSUME = ("every call that leaves the library is a field of the externals record `ext : Loader.Ext` (an arbitrary PyM value); "
+            "every PyExc stands for a subclass of Exception; the handler state a raising call leaves behind is not modelled "
+            "(every handler on the way re-raises); debug() and exception message texts are dropped")
+
 # params: (python name, type[, lean default when the callee is called without it])
 # fuel:   one Lean expression per `while` loop, in source order, over the variables live at loop entry
 # the attributes of a `Tokenizer` instance as variables of the translated methods
@@ -1763,7 +2216,155 @@ TARGETS = [
                "number_format.duration_unit_smallest": ("fmt_smallest", "int")},
      "assume": "cell_value is the double nearest to a whole number of milliseconds / 1000 (PyT.Millis: comparisons with ints, "
                "math.floor(x) != x and x % int are exact on such doubles)"},
+    # ---- C05: chunk framing of iwafile.py ----------------------------------------------------------------------------------
+    {"group": "Iwa", "module": "numbers_parser.iwafile", "qualname": "is_iwa_file", "lean": "is_iwa_file",
+     "params": [("data", "bytes")], "ret": "bool", "fuel": ["data.length + 1"],
+     "assume": "unpack('<I', b)[0] is the little-endian value of exactly four bytes (struct.error otherwise); the while loop runs "
+               "on fuel len(data) + 1 (every iteration removes at least four bytes: is_iwa_file_eq_model)"},
+    {"group": "Iwa", "module": "numbers_parser.iwafile", "qualname": "get_archive_info_and_remainder",
+     "lean": "get_archive_info_and_remainder", "typevars": ["H"],
+     "params": [("parseInfo", ("raw", "Bytes → PyM H")), ("buf", "bytes")], "ret": ("tuple", [("var", "H"), "bytes"]),
+     "externs": {"_DecodeVarint32": ("Iwa.varintDec32Int", ["bytes", "int"], ("tuple", ["int", "int"]), True),
+                 "ArchiveInfo.FromString": ("parseInfo", ["bytes"], ("var", "H"), True)},
+     "assume": "_DecodeVarint32 (google.protobuf, pure Python) is the hand model Iwa.varintDec32 (compared with the real one on "
+               "every run); ArchiveInfo.FromString is the parameter parseInfo"},
+    {"group": "Iwa", "module": "numbers_parser.iwafile", "qualname": "IWACompressedChunk._decompress_all", "lean": "decompress_all",
+     "find": lambda module: find_generator(module, "IWACompressedChunk"),
+     "params": [("uncompress", ("raw", "Bytes → PyM Bytes")), ("data", "bytes")], "ret": ("list", "bytes"),
+     "generator": True, "flow": True, "init": [("yielded_", ("list", "bytes"), "[]")], "fuel": ["data.length + 1"],
+     "externs": {"snappy.uncompress": ("uncompress", ["bytes"], "bytes", True)},
+     "assume": "the generator is consumed as a whole (b''.join(…)): the result is the list of what it yields; snappy.uncompress "
+               "is the parameter uncompress (any result, any exception); `except Exception` catches every PyExc; the while loop "
+               "runs on fuel len(data) + 1; the method is found by name or, after a renaming, as the one generator of the class"},
+    {"group": "Iwa", "module": "numbers_parser.iwafile", "qualname": "IWACompressedChunk.to_buffer", "lean": "chunk_to_buffer",
+     "params": [("compress", ("raw", "Bytes → Bytes")), ("uncompressed", "bytes")], "ret": "bytes",
+     "skip": ["uncompressed = b''.join([archive.to_buffer() for archive in self.archives])"],
+     "init": [("payloads", ("list", "bytes"), "[]")], "state_attrs": {"payloads": "payloads"},
+     "externs": {"snappy.compress": ("compress", ["bytes"], "bytes", False)}, "fuel": ["uncompressed.length + 1"],
+     "assume": "translated from the joined archive bytes on (the parameter uncompressed); snappy.compress is the parameter "
+               "compress; struct.pack('<I', n) is four little-endian bytes (struct.error outside 0 .. 2^32 - 1)"},
+    # ---- C04: the flags-driven field walk of the v5 cell record ------------------------------------------------------------
+    {"group": "CellRec", "module": "numbers_parser.cell", "qualname": "Cell._from_storage", "lean": "from_storage_fields",
+     "params": [("readD128", ("raw", "Bytes → PyM Bytes")), ("readDouble", ("raw", "Bytes → PyM Bytes")), ("buffer", "bytes")],
+     "ret": ("tuple", ["int"] + [("opt", "bytes")] * 3 + [("opt", "int")] * 14),
+     "opt_vars": {"d128": "bytes", "double": "bytes", "seconds": "bytes"},
+     "opt_attrs": {f"storage_flags._{n}_id": (f"{n}_id", "int") for n in CELL_ID_FIELDS},
+     "init": [(f"{n}_id", ("opt", "int"), "none") for n in CELL_ID_FIELDS],
+     "skip": ["storage_flags = CellStorageFlags()"],
+     "unpack": {"<i": ("unpackI32", "int"), "<d": ("readDouble", "bytes")},
+     "externs": {"_unpack_decimal128": ("readD128", ["bytes"], "bytes", True)},
+     "class_defaults": ("CellStorageFlags", [f"_{n}_id" for n in CELL_ID_FIELDS]),
+     "until": ("cell_type = buffer[1]", ["flags", "d128", "double", "seconds"] + [f"{n}_id" for n in CELL_ID_FIELDS]),
+     "assume": "the field walk (everything before `cell_type = buffer[1]`): a fresh CellStorageFlags() has every id None (the "
+               "variables <name>_id, compared with the live class at translation time); payload interpretation stays outside: "
+               "_unpack_decimal128(b) / unpack('<d', b)[0] are the parameters readD128 / readDouble (the payload bytes, or the "
+               "exception a short slice gives); unpack('<i', b)[0] is Py/Struct unpackI32"},
+    # ---- C17: the exception flow of container loading (iwork.py, ObjectStore.__init__) ----------------------------------
+    {"group": "Load", "module": "numbers_parser.iwork", "qualname": "IWork._open_zipfile", "lean": "open_zipfile", "flow": True,
+     "params": [("filepath", L_ZIPSRC)], "pyparams": ["filepath"], "ret": L_NAT,
+     "externs": {"ZipFile": ("filepath", [], L_NAT, True, [])},
+     "exprs": {"version_info >= (3, 11)": ("true" if sys.version_info >= (3, 11) else "false", "bool", False)},
+     "assume": "the parameter is what ZipFile(filepath, …) does (an id or any exception); version_info >= (3, 11) is read from "
+               "the running interpreter; " + L_ASSUME},
+    {"group": "Load", "module": "numbers_parser.iwork", "qualname": "IWork._store_blob", "lean": "store_blob", "flow": True,
+     "params": [L_EXT, ("filename", "str"), ("blob", L_NAT), L_ST], "pyparams": ["filename", "blob"], "ret": "none",
+     "state": ["st"],
+     "externs": {"is_iwa_file": ("ext.sniff", [L_NAT], "bool", True),
+                 "IWAFile.from_buffer": ("ext.decode", [L_NAT, "str"], L_DECODED, True)},
+     "transparent_attrs": ["chunks", "archives"],
+     "attrs": {"archive.header.identifier": ("archive.1", L_NAT)},
+     "tables": {"archive.objects": ("Loader.objectAt archive", "int", "none")},
+     "state_externs": {"self._handler.store_object": ("Loader.storeObject", "st", [1]),
+                       "self._handler.store_file": ("Loader.storeFile", "st", [0])},
+     "assume": "IWAFile.from_buffer(blob, filename) is ext.decode: chunks -> archives -> (header.identifier, len(objects)); "
+               "archive.objects[0] is pyIndex on that many objects; store_object / store_file append to the handler state; "
+               + L_ASSUME},
+    {"group": "Load", "module": "numbers_parser.iwork", "qualname": "IWork._read_objects_from_zipfile",
+     "lean": "read_objects_from_zipfile", "flow": True, "rec_fuel": "ext.depth",
+     "params": [L_EXT, L_FUEL, ("zipf", L_NAT), L_ST], "pyparams": ["zipf"], "ret": "none", "state": ["st"],
+     "externs": {"zipf.getinfo": ("Loader.getinfo ext zipf", ["str"], "none", True),
+                 "zipf.namelist": ("(ext.zipNames zipf)", [], ("list", "str"), False, []),
+                 "zipf.read": ("ext.zipRead zipf", ["str"], L_NAT, True),
+                 "BytesIO": ("ext.openZipBytes", [L_NAT], L_ZIPSRC, False)},
+     "methods": {("str", "lower"): ("Loader.lower", "str")},
+     "assume": "an opened ZipFile is its id; namelist() / getinfo() are look-ups on ext.zipNames; ZipFile(BytesIO(blob)) is "
+               "ext.openZipBytes blob; str.lower is ASCII lower-casing; the recursion into Index.zip runs on fuel ext.depth "
+               "(RecursionError at 0); " + L_ASSUME},
+    {"group": "Load", "module": "numbers_parser.iwork", "qualname": "IWork._read_objects_from_package",
+     "lean": "read_objects_from_package", "flow": True, "rec_fuel": "1",
+     "params": [L_EXT, L_FUEL, ("filepath", ("list", L_STEP)), L_ST], "pyparams": ["filepath"], "ret": "none", "state": ["st"],
+     "externs": {"filepath.iterdir": ("filepath", [], ("list", L_STEP), False, []),
+                 "sub_filepath.is_dir": ("Loader.stepIsDir sub_filepath", [], "bool", True, []),
+                 "sub_filepath.open": ("()", [], "none", False, []),
+                 "fh.read": ("Loader.stepRead sub_filepath", [], L_NAT, True, []),
+                 "re.sub": ("(Loader.stepName sub_filepath)", [], "str", False, [])},
+     "exprs": {"sub_filepath.name.lower() == 'index.zip'": ("(Loader.stepIsIndexZip sub_filepath)", "bool", False)},
+     "arg_wrap": {"_open_zipfile": "Loader.stepOpen", "_read_objects_from_package": "Loader.stepSubdir"},
+     "assume": "the walk is the flattened one of the hand model: iterdir() of the package yields the depth-first sequence of "
+               "steps ext.pkgSteps, a step that raises stands for a failing iterdir / is_dir / open / read, sub-directories do not "
+               "occur as entries (the recursive call is translated but never reached); " + L_ASSUME},
+    {"group": "Load", "module": "numbers_parser.iwork", "qualname": "IWork.document_version", "lean": "document_version",
+     "flow": True, "property": True,
+     "params": [L_EXT, ("is_package", ("opt", "bool")), ("zipf", ("opt", L_NAT))], "pyparams": [], "ret": ("opt", "str"),
+     "opt_attrs": L_OPT_ATTRS,
+     "skip": ["properties_filename = self._filepath / 'Metadata/Properties.plist'",
+              "build_filename = self._filepath / 'Metadata/BuildVersionHistory.plist'"],
+     "externs": {"properties_filename.exists": ("ext.propsExists", [], "bool", True, []),
+                 "build_filename.exists": ("ext.buildExists", [], "bool", True, []),
+                 "open": ("()", [], "none", False, []),
+                 "fh.read": ("ext.propsRead", [], L_NAT, True, []),
+                 "self._zipf.read": ("Loader.zipfRead ext zipf", ["str"], L_NAT, True),
+                 "plistlib.loads": ("ext.plistVersion", [L_NAT], ("opt", "str"), True),
+                 "warn": ("ext.warn 0", [], "none", True, [])},
+     "exprs": {"self._zipf.filelist": ("Loader.filelist ext zipf", ("list", "str"), True),
+               "sorted(metadata)[-1]": ("Loader.lastSorted metadata", "str", True),
+               "doc_properties['fileFormatVersion']": ("doc_properties", ("opt", "str"), False)},
+     "transparent_attrs": ["filename"],
+     "assume": "self._is_package / self._zipf are Optional parameters (AttributeError while unset); plistlib.loads(blob)"
+               "['fileFormatVersion'] is the one external ext.plistVersion (none: present but not a str); sorted(names)[-1] is "
+               "Loader.lastSorted; a ZipInfo is its filename; " + L_ASSUME},
+    {"group": "Load", "module": "numbers_parser.iwork", "qualname": "IWork._open", "lean": "open_body", "flow": True,
+     "params": [L_EXT, ("filepath", "none"), L_ST], "pyparams": ["filepath"], "ret": "none", "state": ["st"],
+     "init": [("is_package", ("opt", "bool"), "none"), ("zipf", ("opt", L_NAT), "none")],
+     "opt_attrs": L_OPT_ATTRS, "skip": ["self._filepath = filepath"],
+     "attrs": {"self._filepath": ("ext.pkgSteps", ("list", L_STEP))},
+     "externs": {"filepath.exists": ("ext.pathExists", [], "bool", True, []),
+                 "self._handler.allowed_format": ("ext.suffixOk", [], "bool", False, []),
+                 "filepath.is_dir": ("ext.isDir {i}", [], "bool", True, []),
+                 "self._handler.allowed_version": ("Loader.allowedVersion ext", [("opt", "str")], "bool", True),
+                 "warn": ("ext.warn 1", [], "none", True, [])},
+     "arg_wrap": {"_open_zipfile": "(fun (_ : Unit) => ext.openZipPath)"},
+     "assume": "a fresh IWork has neither _is_package nor _zipf; filepath.is_dir() is ext.isDir <index of the call site>; "
+               "ZipFile(filepath) is ext.openZipPath; handler.allowed_format(filepath.suffix) is ext.suffixOk, "
+               "handler.allowed_version on something that is not a str raises TypeError; " + L_ASSUME},
+    {"group": "Load", "module": "numbers_parser.iwork", "qualname": "IWork.open", "lean": "iwork_open", "flow": True,
+     "params": [L_EXT, ("filepath", "none"), L_ST], "pyparams": ["filepath"], "ret": "none", "state": ["st"],
+     "exc_classes": {"Warning": "ext.isWarning", "OSError": "ext.isOSError"},
+     "assume": "isinstance(e, Warning) / isinstance(e, OSError) are ext.isWarning / ext.isOSError; the other classes of the "
+               "except clauses are matched by name; `except Exception` catches every PyExc; " + L_ASSUME},
+    {"group": "Load", "module": "numbers_parser.containers", "qualname": "ObjectStore.__init__", "lean": "load", "flow": True,
+     "params": [L_EXT, ("filepath", "none")], "pyparams": ["filepath"], "ret": "none", "state": ["max_id", "st"],
+     "init": [("st", ("var", "Loader.Store"), "{}"), ("max_id", "int", "(0 : Int)")],
+     "state_attrs": {"self._max_id": "max_id"}, "self_aliases": ["self._iwork"],
+     "skip": ["self._objects = {}", "self._file_store = {}", "self._object_to_filename_map = {}", "self._dirty = {}",
+              "self._iwork = IWork(handler=self)"],
+     "attrs": {"self._objects": ("st.objs", ("list", L_NAT))},
+     "externs": {"max": ("(Loader.maxKey st)", [], "int", False, [])},
+     "assume": "the handler's dicts start empty (the state Loader.Store); len(self._objects) == 0 is `no identifier stored`; "
+               "max(self._objects.keys()) is Loader.maxKey; math.ceil(a / 1000000) is the exact ceiling (a < 2^53); " + L_ASSUME},
 ]
+
+
+def find_generator(module: str, klass: str) -> ast.FunctionDef:
+    """the one method of the class that is a generator (IWACompressedChunk._decompress_all under any name)"""
+    import importlib
+    mod = importlib.import_module(module)
+    tree = ast.parse(Path(inspect.getsourcefile(mod)).read_text())
+    gens = [m for c in tree.body if isinstance(c, ast.ClassDef) and c.name == klass for m in c.body
+            if isinstance(m, ast.FunctionDef) and any(isinstance(n, ast.Yield) for n in ast.walk(m))]
+    if len(gens) != 1:
+        raise Unsupported(f"{klass} does not have exactly one generator method")
+    return gens[0]
 
 
 def find_def(module: str, qualname: str) -> ast.FunctionDef:
@@ -1783,7 +2384,9 @@ def find_def(module: str, qualname: str) -> ast.FunctionDef:
     return node
 
 
-GROUP_IMPORTS = {"A1": ["NumbersModel.Model.A1"], "Items": [], "NumFmt": [], "Addr": [], "DateFmt": [], "Duration": [], "Dec128": [], "Merge": [], "Edit": [], "Cache": [], "Tok": ["NumbersModel.Model.TokenizerSrc"]}
+GROUP_IMPORTS = {"A1": ["NumbersModel.Model.A1"], "Items": [], "NumFmt": [], "Addr": [], "DateFmt": [], "Duration": [], "Dec128": [], "Merge": [], "Edit": [], "Cache": [], "Tok": ["NumbersModel.Model.TokenizerSrc"],
+                 "Load": ["NumbersModel.Model.LoaderSrc"], "Iwa": ["NumbersModel.Model.IwaSrc"],
+                 "CellRec": ["NumbersModel.Model.CellRecordSrc"]}
 
 
 def generate(group: str) -> tuple[str, dict]:
@@ -1798,7 +2401,12 @@ def generate(group: str) -> tuple[str, dict]:
     status = {}
     for spec in targets:
         try:
-            fdef = find_def(spec["module"], spec["qualname"])
+            try:
+                fdef = find_def(spec["module"], spec["qualname"])
+            except Unsupported:
+                if "find" not in spec:
+                    raise
+                fdef = spec["find"](spec["module"])      # the function under another name (a harmless renaming)
             code = Fn(spec, registry).translate(fdef)
             src = ast.unparse(fdef)
             doc = ast.get_docstring(fdef)
